@@ -63,3 +63,119 @@ contract(CM + 'update_all_cluster_statistics', props=['C12', 'C13', 'C09', 'C19'
                              "forall(0, cluster_id, lambda k: members_ok(updated_model.clusters[k]._member_points, model._point_labels, k))"],
                         lemmas_end=["members_ok(updated_model.clusters[cluster_id]._member_points, model._point_labels, cluster_id)"] + [p.format(new='updated_model.clusters[cluster_id]', old='model.clusters[cluster_id]') for p in _STATS_PARTS[:2]],
                         modifies=['ref:updated_model.clusters'])})
+
+specfn('csize', "lambda m, k: len(m.clusters[k]._member_points)")
+_M = "model.arguments.min_cluster_size"
+
+contract(CM + '_find_point_donor', props=['C08', 'C20'],
+         params=dict(model='obj:ModelState', potential_donor_ids='list[int]'), returns='tuple[int,list[int]]',
+         requires=["not isnone(model.clusters)", "not isnone(model.arguments)",
+                   "forall(0, len(potential_donor_ids), lambda j: 0 <= potential_donor_ids[j] and potential_donor_ids[j] < len(model.clusters))",
+                   "forall(0, len(model.clusters), lambda k: not isnone(model.clusters[k]) and not isnone(model.clusters[k]._member_points))"],
+         # the first candidate decides: it is returned when it holds >= 2m points, otherwise nothing is
+         raises={'RuntimeError': "len(potential_donor_ids) == 0 or csize(model, potential_donor_ids[0]) < 2 * " + _M},
+         ensures=[("donor-is-first-candidate", "result[0] == potential_donor_ids[0]"),
+                  ("donor-has-at-least-2m-points", "csize(model, result[0]) >= 2 * " + _M),
+                  ("donor-stays-in-pool-iff-it-can-give-again", "ite(csize(model, result[0]) >= 3 * " + _M + ", "
+                   "len(result[1]) == len(potential_donor_ids) and forall(0, len(result[1]), lambda j: result[1][j] == potential_donor_ids[j]), "
+                   "len(result[1]) == len(potential_donor_ids) - 1 and forall(0, len(result[1]), lambda j: result[1][j] == potential_donor_ids[j + 1]))"),
+                  "fresh(result[1])", "unchanged(potential_donor_ids, model)"],
+         loops={1: dict(inv=["len(remaining_donors) <= len(potential_donor_ids)",
+                             "forall(0, len(remaining_donors), lambda j: remaining_donors[j] == potential_donor_ids[j])",
+                             "len(remaining_donors) == len(potential_donor_ids) or "
+                             "(len(potential_donor_ids) > 0 and csize(model, potential_donor_ids[0]) < 2 * " + _M + ")",
+                             "fresh(remaining_donors)"],
+                        decreases="len(remaining_donors)", modifies=['remaining_donors'])})
+
+contract(CM + '_move_random_points', props=['C08', 'C19'],
+         params=dict(model='obj:ModelState', donor_cluster_id='int', recipient_cluster_id='int'), returns='list[int]',
+         requires=["wf(model)", "0 <= donor_cluster_id and donor_cluster_id < len(model.clusters)",
+                   "0 <= recipient_cluster_id and recipient_cluster_id < len(model.clusters)",
+                   "donor_cluster_id != recipient_cluster_id", _M + " >= 1",
+                   "csize(model, donor_cluster_id) >= " + _M],
+         ghost={'returns': dict(S='donated_point_ids'), 'return_kinds': dict(S='list[int]')},
+         ensures=["fresh(result)", "len(result) == len(model._point_labels)",
+                  ("exactly-m-points-sampled", "len(S) == " + _M + " and forall(lambda i, j: implies(0 <= i and i < j and j < len(S), S[i] != S[j]))"),
+                  ("sampled-points-were-in-the-donor-and-move-to-the-recipient", "forall(0, len(S), lambda j: 0 <= S[j] and S[j] < len(result) and "
+                   "model._point_labels[S[j]] == donor_cluster_id and result[S[j]] == recipient_cluster_id)"),
+                  ("every-other-label-is-kept", "forall(0, len(result), lambda p: result[p] == model._point_labels[p] or "
+                   "(model._point_labels[p] == donor_cluster_id and result[p] == recipient_cluster_id))"),
+                  ("labels-stay-in-range", "forall(0, len(result), lambda p: 0 <= result[p] and result[p] < len(model.clusters))"),
+                  "unchanged(model, model._point_labels)"],
+         loops={1: dict(inv=["len(new_point_labels) == len(model._point_labels)",
+                             "forall(0, _k, lambda j: new_point_labels[donated_point_ids[j]] == recipient_cluster_id)",
+                             "forall(0, len(new_point_labels), lambda p: new_point_labels[p] == model._point_labels[p] or "
+                             "(model._point_labels[p] == donor_cluster_id and new_point_labels[p] == recipient_cluster_id))",
+                             "forall(_k, len(donated_point_ids), lambda j: new_point_labels[donated_point_ids[j]] == donor_cluster_id)"],
+                        modifies=['new_point_labels'])})
+
+_ELIG = "csize(model, %s) >= 2 * " + _M
+contract(CM + '_find_ranked_donor_cluster_ids', props=['C08'],
+         params=dict(model='obj:ModelState'), returns='list[int]',
+         requires=["not isnone(model.clusters)", "not isnone(model.arguments)",
+                   "forall(0, len(model.clusters), lambda k: not isnone(model.clusters[k]) and not isnone(model.clusters[k]._member_points) "
+                   "and not isnone(model.clusters[k].computed_covariance))"],
+         ghost={'comps': {1: dict(kind='list[int]',
+                                  inv=["forall(0, len(_comp1), lambda j: 0 <= _comp1[j] and _comp1[j] < i and " + (_ELIG % "_comp1[j]") + ")",
+                                       "forall(lambda j1, j2: implies(0 <= j1 and j1 < j2 and j2 < len(_comp1), _comp1[j1] < _comp1[j2]))",
+                                       "forall(lambda q: implies(0 <= q and q < i and " + (_ELIG % "q") + ", "
+                                       "exists(0, len(_comp1), lambda j: _comp1[j] == q)))"])},
+                'returns': dict(spread='cluster_spread'), 'return_kinds': dict(spread='list[real]')},
+         ensures=[("only-clusters-with-at-least-2m-points", "forall(0, len(result), lambda j: 0 <= result[j] and result[j] < len(model.clusters) and "
+                   + (_ELIG % "result[j]") + ")"),
+                  ("every-such-cluster-is-listed", "forall(lambda q: implies(0 <= q and q < len(model.clusters) and " + (_ELIG % "q") + ", "
+                   "exists(0, len(result), lambda j: result[j] == q)))"),
+                  ("no-duplicates", "forall(lambda j1, j2: implies(0 <= j1 and j1 < j2 and j2 < len(result), result[j1] != result[j2]))"),
+                  ("ordered-by-decreasing-spread", "len(spread) == len(model.clusters) and "
+                   "forall(lambda j1, j2: implies(0 <= j1 and j1 < j2 and j2 < len(result), spread[result[j1]] >= spread[result[j2]]))"),
+                  ("spread-is-the-norm-of-the-computed-covariance", "forall(0, len(model.clusters), lambda k: spread[k] == "
+                   "norm2d(model.clusters[k].computed_covariance))"),
+                  "fresh(result)", "unchanged(model)"])
+
+_NL, _OL = "new_model._point_labels", "model._point_labels"
+_MOVED = ("forall(0, len({ol}), lambda p: {nl}[p] == {ol}[p] or (csize(model, {ol}[p]) >= 2 * " + _M + " and csize(model, {nl}[p]) < 2))")
+_MODEL_UNCHANGED = ("unchanged(model, model.clusters, model._point_labels) and "
+                    "forall(0, len(model.clusters), lambda k: unchanged(model.clusters[k], model.clusters[k]._member_points))")
+
+contract(CM + 'repopulate_empty_clusters', props=['C08', 'C13', 'C09', 'C19', 'C20'],
+         params=dict(model='obj:ModelState'), returns='obj:ModelState',
+         requires=["wf(model)", _M + " >= 1",
+                   "forall(0, len(model.clusters), lambda k: not isnone(model.clusters[k].computed_covariance))"],
+         # RuntimeError (donor shortage) is raised by _find_point_donor when the pool's first candidate has < 2m points;
+         # the state given is untouched in that case as well
+         raises={'RuntimeError': None},
+         ghost={
+                'xensures': {'RuntimeError': [("caller-state-not-modified-on-error", _MODEL_UNCHANGED)]},
+                'comps': {1: dict(kind='list[obj:ClusterParameters]',
+                                  lemmas_end=["members_ok(model.clusters[_k]._member_points, model._point_labels, _k)",
+                                              "ascending(model.clusters[_k]._member_points)",
+                                              "eqcontent(_comp1[_k]._member_points, model.clusters[_k]._member_points)"],
+                                  inv=["len(_comp1) == _k",
+                                       "forall(0, _k, lambda k: fresh(_comp1[k]) and allocated(_comp1[k]) and fresh(_comp1[k]._member_points))",
+                                       "forall(0, _k, lambda k: not same(_comp1[k]._member_points, _comp1))",
+                                       "forall(0, _k, lambda k: len(_comp1[k]._member_points) == len(model.clusters[k]._member_points))",
+                                       "forall(lambda k, j: implies(0 <= k and k < _k and 0 <= j and j < len(model.clusters[k]._member_points), "
+                                       "_comp1[k]._member_points[j] == model.clusters[k]._member_points[j]))",
+                                       "forall(0, _k, lambda k: fresh(_comp1[k].computed_covariance) and not isnone(_comp1[k].computed_covariance))",
+                                       "forall(lambda k1, k2: implies(0 <= k1 and k1 < k2 and k2 < _k, not same(_comp1[k1], _comp1[k2])))"])}},
+         ensures=[("identity-when-nothing-to-repopulate", "implies(forall(0, len(model.clusters), lambda k: csize(model, k) >= 2), same(result, model))"),
+                  ("new-state-otherwise", "implies(not same(result, model), fresh(result) and fresh(result.clusters))"),
+                  ("same-number-of-points-and-clusters", "len(result._point_labels) == len(model._point_labels) and "
+                   "len(result.clusters) == len(model.clusters) and same(result.arguments, model.arguments)"),
+                  ("points-move-only-from-a-2m-donor-into-an-underpopulated-cluster", _MOVED.format(nl='result._point_labels', ol=_OL)),
+                  ("result-is-well-formed", "wf(result)"),
+                  ("caller-state-not-modified", _MODEL_UNCHANGED)],
+         loops={1: dict(inv=["forall(lambda k: in_set(k, clusters_to_repopulate) == (0 <= k and k < _k and csize(model, k) < 2))",
+                             "len(clusters_to_repopulate) >= 0",
+                             "implies(len(clusters_to_repopulate) == 0, forall(0, _k, lambda k: csize(model, k) >= 2))",
+                             "implies(forall(0, _k, lambda k: csize(model, k) >= 2), len(clusters_to_repopulate) == 0)"],
+                        modifies=['clusters_to_repopulate']),
+                2: dict(inv=["wf(new_model)", "fresh(new_model)", "fresh(new_model.clusters)",
+                             "forall(0, len(new_model.clusters), lambda k: fresh(new_model.clusters[k]))",
+                             "len(new_model.clusters) == len(model.clusters)", "same(new_model.arguments, model.arguments)",
+                             "len(%s) == len(%s)" % (_NL, _OL),
+                             _MOVED.format(nl=_NL, ol=_OL),
+                             "forall(0, len(remaining_donors), lambda j: 0 <= remaining_donors[j] and remaining_donors[j] < len(model.clusters) "
+                             "and csize(model, remaining_donors[j]) >= 2 * " + _M + ")",
+                             "forall(lambda k: implies(in_set(k, _visited), in_set(k, clusters_to_repopulate)))"],
+                        modifies=['new_model._point_labels', 'new_model.clusters[*]._member_points'])})
